@@ -135,6 +135,9 @@ func muxScenario(tr *Tracer, rng *rand.Rand, nchan, msgs, replies, procs int, un
 			if grng.Intn(3) == 0 {
 				cmd += strings.Repeat(" ", 600) // several packets
 			}
+			if g == 1 && m == 0 {
+				cmd += strings.Repeat(" ", 504*270) // more than 256 packets: the packet number wraps
+			}
 			if err := ch.SendPackage(context.Background(), &tds.LanguagePackage{Cmd: cmd}); err != nil {
 				tr.Emit(Ev{"ev": "SendErr", "chan": id, "text": err.Error()})
 				return
